@@ -1,18 +1,4 @@
 // ---------------- assumed environment: liquid_core value model (stand-ins; every contract here is trusted) ----------------
-#[verifier::external_body]
-pub struct Error { _p: u8 }
-pub type Result<T> = core::result::Result<T, Error>;
-impl Error {
-    #[verifier::external_body]
-    pub fn into_err<T>(self) -> (r: Result<T>) ensures r is Err { unimplemented!() }
-}
-pub trait Runtime { }
-
-#[verifier::external_body]
-pub fn invalid_input(cause: &str) -> Error { unimplemented!() }
-#[verifier::external_body]
-pub fn invalid_argument(argument: &str, cause: &str) -> Error { unimplemented!() }
-
 /// a string value seen three ways: bytes (`str::len`), chars (`chars()`), grapheme clusters
 #[verifier::external_body]
 pub struct KStringCow { _p: u8 }
@@ -21,6 +7,8 @@ impl KStringCow {
     pub uninterp spec fn byte_len(&self) -> nat;
     #[verifier::external_body]
     pub fn len(&self) -> (r: usize) ensures r == self.byte_len() { unimplemented!() }
+    #[verifier::external_body]
+    pub fn into_owned(self) -> KString { unimplemented!() }
     #[verifier::external_body]
     pub fn chars(&self) -> (r: CharIter) ensures r.rest() == self.chars_view() { unimplemented!() }
 }
@@ -133,4 +121,19 @@ pub trait ArrayView {
     spec fn elems(&self) -> Seq<VId>;
     fn size(&self) -> (r: i64) ensures r == self.elems().len();
     fn values(&self) -> (r: ValIter) ensures r.rest() == self.elems();
+}
+/// `Value` itself is a view (identity preserved)
+impl ValueView for Value {
+    open spec fn vid_of(&self) -> VId { self.vid() }
+    uninterp spec fn scalar_of(&self) -> Option<ScalarCow>;
+    uninterp spec fn kstr_of(&self) -> KStringCow;
+    open spec fn array_of(&self) -> Option<Seq<VId>> { self.arr() }
+    #[verifier::external_body]
+    fn as_scalar(&self) -> (r: Option<ScalarCow>) { unimplemented!() }
+    #[verifier::external_body]
+    fn to_kstr(&self) -> (r: KStringCow) { unimplemented!() }
+    #[verifier::external_body]
+    fn to_value(&self) -> (r: Value) { unimplemented!() }
+    #[verifier::external_body]
+    fn as_array(&self) -> (r: Option<&dyn ArrayView>) { unimplemented!() }
 }
